@@ -23,3 +23,24 @@ claim("C03", "E1-kvmodel", "exploration", "differential runtime monitor vs per-v
       "thousands of generated set/remove/save/delete-version histories on the real IAVL tree (key universes 1..3000, node cache 0..10000); every lookup API on the working tree and on every retained version compared with a per-version map, AVL/BST/size/height invariants asserted by hook H1 after every operation; held-on-observed",
       E1NOTE + "; hook H1 store/iavl/verif_hooks.go", "DESIGN.md §4 C03")
 HOOK_COMMITS.append("96b9fde verif hook H1: iavl ImmutableTree.VerifStructure")
+
+MSNOTE = E1NOTE + "; multistore driven directly (no ABCI app); MemDB unless stated"
+claim("C04", "E1-kvmodel", "exploration", "differential runtime monitor: reopen-from-DB vs recorded commit IDs and per-version reference maps; never-reopened replica twin",
+      "generated block histories on the real rootmulti/IAVL stores; store objects rebuilt over the same DB (MemDB and on-disk goleveldb) at random points and at every version; LastCommitID, per-substore hashes and full contents compared with what was observed before closing and with a replica that never reopened; held-on-observed",
+      MSNOTE, "DESIGN.md §4 C04")
+claim("C06", "E1-kvmodel", "exploration", "twin-run differential monitor (with / without / with noisy transient writes, reversed mounting, interleaved reads) + per-commit invariants",
+      "three stores fed identical persistent writes but different transient writes, mount order and read traffic must report identical, consecutive, non-empty commit IDs at every block; transient store asserted empty at first access after each commit; held-on-observed",
+      MSNOTE, "DESIGN.md §4 C06")
+claim("C07", "E2-faultdb", "fault_enumeration", "write-event enumeration: DB snapshot after every durable write of every commit, recovery + re-execution compared with the uninterrupted run",
+      "for each generated history every write event of every commit is cut (exhaustive inner space, sampled histories); the recovered store must be exactly the previous or exactly the new block and re-execution must reproduce the uninterrupted app hashes; a known finding covers the very first commit",
+      MSNOTE + "; batch writes assumed atomic; crash = stop between two durable writes", "DESIGN.md §4 C07")
+claim("C08", "E1-kvmodel", "exploration", "runtime monitor over every rollback target of generated histories: state, unreadability of later versions, re-apply equivalence",
+      "for every target height of every generated history RollbackVersion is run on a DB copy, then LastCommitID/contents/older versions compared with the per-version model, later versions probed through 4 read routes, and the original blocks re-applied and compared; exhaustive over targets per history, histories sampled",
+      MSNOTE, "DESIGN.md §4 C08")
+claim("C09", "E1-kvmodel", "exploration", "runtime monitor: long-lived historical views re-read after and in the middle of later writes vs per-height reference maps",
+      "historical views opened through LoadLazyVersion and CacheMultiStoreWithVersion are kept open across dozens of later commits and re-read completely, plus historical ABCI store queries; every value compared with the model recorded when that height was committed; held-on-observed (store level; node-level reads are covered by the chain engine where built)",
+      MSNOTE, "DESIGN.md §4 C09")
+claim("C10", "E1-kvmodel", "exploration", "twin-run differential monitor: state cache on vs off, every cached height, Get/Has/iterators over generated ranges",
+      "two multistores (cache on/off) fed identical histories; at every height in the cache window point reads (nil-ness included), existence checks and forward/reverse iteration over generated ranges must agree; three genuine defects found this way were repaired by fix: commits in /repo",
+      MSNOTE, "DESIGN.md §4 C10")
+ENGINES.append({"name": "E2-faultdb", "path": "internal/faultdb", "serves_properties": ["C07"], "kind_free_text": "fault injection: dbm.DB wrapper numbering every durable write; snapshot/cut after event k"})
